@@ -8,17 +8,24 @@ from sa.tables import ConstEval
 import itertools
 
 EXPLANATION = (
-    "Decided (tables folded from the AST, regexes parsed with the stdlib regex parser): (1) parse_duration: the "
-    "pattern is anchored (re.match + end anchor), the number group is a digit class, nothing outside the two groups "
+    "Decided (tables folded from the AST, regexes parsed with the stdlib regex parser; a pattern is followed from its "
+    "application - re.match/search/fullmatch or the same methods of a pattern precompiled in a local, a default argument "
+    "or a module constant, with the flags of re.compile and of the call): (1) parse_duration: the "
+    "pattern covers the whole value (decided from pattern anchors x method: match/fullmatch start at the first character, "
+    "search only with \\A or a non-MULTILINE ^; fullmatch, \\Z or a non-MULTILINE $ end at the last; malformed probe "
+    "strings give the concrete misreading), the number group is a digit class, nothing outside the two groups "
     "but optional whitespace, the finite language of the unit group (lower-cased) is contained in the keys of "
     "time_map, IGNORECASE implies the key is lower-cased, the multipliers fold to second=1, day=86400, "
     "month=31 days, year=365 days and the result is int(group 1) * time_map[unit]; (2) every spelling documented in "
-    "docs/garbage-collection.rst is accepted with that value; (3) parse_abbreviated_size: the pattern is anchored, "
+    "docs/garbage-collection.rst is accepted with that value; (3) parse_abbreviated_size: the pattern covers the whole value "
+    "(same decision), "
     "every word of the suffix group's language reaches the multiplier table (after the function's own rewriting of "
     "the suffix, interpreted on the finite language) with an existing key whose value is 1000**n resp. 1024**n; "
     "(4) every reserved_space spelling documented in docs/configuration.rst is accepted with the documented value; "
     "(5) parse_date is int(iso_utc_time_to_seconds(s + 'T00:00:00')), the regex groups year..second feed "
-    "calendar.timegm in that order and the documented dates are accepted; (6) the date grammar rejects trailing junk; "
+    "calendar.timegm in that order and the documented dates are accepted; (6) the date grammar covers the whole value: either parse_date gates "
+    "every return on a fixed-shape guard applied to its argument that is anchored at both ends, or the ISO regex "
+    "itself is (anchors x method); "
     "(7) every output template of abbreviate_space lies in the grammar of parse_abbreviated_size; (8) client.py hands "
     "reserved_space / expire.override_lease_duration / expire.cutoff_date through the matching parser to the "
     "matching StorageServer argument. "
@@ -114,34 +121,210 @@ def evaluate(idx, fn, e, env):
     return v
 
 
-def re_flags(call, from_pos):
-    fl = 0
-    names = []
-    for a in list(call.args[from_pos:]) + [k.value for k in call.keywords if k.arg == "flags"]:
+RE_METHODS = ("match", "search", "fullmatch")
+RE_FLAG_MASK = int(re.IGNORECASE | re.MULTILINE | re.DOTALL | re.VERBOSE | re.ASCII)
+
+
+def re_member(m, f):
+    """'match' for an expression that denotes re.match in module m (re.match, r.match with `import re as r`,
+    match with `from re import match`); None otherwise."""
+    if isinstance(f, ast.Attribute) and isinstance(f.value, ast.Name) and m.imports.get(f.value.id) == "re":
+        return f.attr
+    if isinstance(f, ast.Name) and (m.imports.get(f.id) or "").startswith("re."):
+        return m.imports[f.id][3:]
+    return None
+
+
+def flag_bits(m, exprs):
+    """Value and names of regex flag expressions (re.I | re.M, IGNORECASE imported from re, integers)."""
+    bits, names = 0, []
+    for a in exprs:
         for n in ast.walk(a):
-            if isinstance(n, ast.Attribute) and isinstance(n.value, ast.Name) and n.value.id == "re":
-                names.append(n.attr)
-    for nm in names:
-        fl |= int(getattr(re, nm, 0))
-    return fl, names
+            if isinstance(n, (ast.BinOp, ast.BitOr, ast.Load)):
+                continue
+            if isinstance(n, ast.Constant) and isinstance(n.value, int):
+                bits |= n.value
+                continue
+            if isinstance(n, ast.Name) and m.imports.get(n.id) == "re":
+                continue
+            nm = re_member(m, n) if isinstance(n, (ast.Attribute, ast.Name)) else None
+            if nm is None or not isinstance(getattr(re, nm, None), re.RegexFlag):
+                raise AnalysisError("cannot evaluate the regex flags %s" % ast.unparse(a))
+            bits |= int(getattr(re, nm))
+            names.append(nm)
+    return bits, names
 
 
-def the_match_call(fn):
-    """The single re.match / re.fullmatch / re.search call of a parser function."""
-    cs = [c for c in calls_in_func(fn) if call_name(c) in ("re.match", "re.fullmatch", "re.search")]
-    if len(cs) != 1:
-        raise AnchorVanished("%s: expected one re.match call, found %d" % (fn.qual, len(cs)))
-    return cs[0]
+def regex_source(idx, fn, e, env, local=True, depth=0):
+    """(pattern text, flag bits, flag names, description) of an expression that denotes a regular expression: a
+    constant string, or a pattern precompiled with re.compile in a local, a default argument, a module or class
+    constant.  Flags given to re.compile (positionally or by keyword) are part of the result."""
+    m = fn.module
+    if depth > 6:
+        raise AnalysisError("%s: regex definition chain too deep at %s" % (fn.qual, ast.unparse(e)))
+    if isinstance(e, ast.Call) and re_member(m, e.func) == "compile":
+        pe = arg(e, 0, "pattern")
+        if pe is None:
+            raise AnalysisError("%s: re.compile without a pattern" % fn.qual)
+        pat, fl, names, _d = regex_source(idx, fn, pe, env, local, depth + 1)
+        fl2, names2 = flag_bits(m, list(e.args[1:]) + [k.value for k in e.keywords if k.arg == "flags"])
+        return pat, fl | fl2, names + names2, "re.compile"
+    if isinstance(e, ast.Name):
+        if local and isinstance(env.get(e.id), str):
+            return env[e.id], 0, [], e.id
+        if local:
+            defs = [st.value for st in func_own_nodes(fn) if isinstance(st, ast.Assign)
+                    and any(isinstance(t, ast.Name) and t.id == e.id for t in st.targets)]
+            others = [st for st in func_own_nodes(fn) if isinstance(st, (ast.AugAssign, ast.AnnAssign, ast.NamedExpr))
+                      and isinstance(st.target, ast.Name) and st.target.id == e.id]
+            if len(defs) > 1 or others:
+                raise AnalysisError("%s: the pattern %s is assigned more than once" % (fn.qual, e.id))
+            if defs:
+                r = regex_source(idx, fn, defs[0], env, True, depth + 1)
+                return r[:3] + (e.id,)
+            a = fn.node.args
+            pos = list(a.posonlyargs) + list(a.args)
+            dflt = dict(zip([x.arg for x in pos][len(pos) - len(a.defaults):], a.defaults))
+            dflt.update({x.arg: d for x, d in zip(a.kwonlyargs, a.kw_defaults) if d is not None})
+            if e.id in dflt:
+                r = regex_source(idx, fn, dflt[e.id], {}, False, depth + 1)
+                return r[:3] + ("default argument " + e.id,)
+            if e.id in fn.params:
+                raise AnalysisError("%s: the pattern is the caller-supplied argument %s" % (fn.qual, e.id))
+        mdefs = m.assigns.get(e.id) or []
+        if len(mdefs) == 1:
+            r = regex_source(idx, fn, mdefs[0], {}, False, depth + 1)
+            return r[:3] + ("module constant " + e.id,)
+        if len(mdefs) > 1:
+            raise AnalysisError("%s: module constant %s is assigned more than once" % (fn.qual, e.id))
+    try:
+        v = evaluate(idx, fn, e, env if local else {})
+    except NotConstant as ex:
+        raise AnalysisError("%s: cannot fold the pattern %s (%s)" % (fn.qual, ast.unparse(e), ex))
+    if isinstance(v, tuple) and len(v) == 3 and v[0] == "re" and isinstance(v[1], str):
+        fl, names = flag_bits(m, [ast.parse(x, mode="eval").body for x in v[2]])
+        return v[1], fl, names, ast.unparse(e)
+    if isinstance(v, str):
+        return v, 0, [], "literal"
+    raise AnalysisError("%s: %s is not a text pattern (%r)" % (fn.qual, ast.unparse(e), type(v).__name__))
 
 
-def anchored(call, rast):
-    how = call_name(call)
-    end = regex_end_anchor(rast) is not None
-    if how == "re.fullmatch":
+class RegexUse:
+    """One application of a regular expression to a subject: re.match(p, s, flags) / <compiled>.search(s) / ..."""
+
+    def __init__(self, fn, call, how, pattern, flags, flagnames, subject, via):
+        self.fn, self.call, self.how, self.pattern, self.subject, self.via = fn, call, how, pattern, subject, via
+        # flags written inside the pattern ((?i), (?m)) count as well
+        import sre_parse as _sp
+        try:
+            inline = int(_sp.parse(pattern, flags).state.flags) & RE_FLAG_MASK
+        except re.error as ex:
+            raise AnalysisError("%s: pattern %r does not compile: %s" % (fn.qual, pattern, ex))
+        self.flags = (flags | inline) & RE_FLAG_MASK
+        self.flagnames = flagnames
+        self.rast = regex_ast(pattern, self.flags)
+
+    def apply(self, text):
+        return getattr(re, self.how)(self.pattern, text, self.flags)
+
+    def describe(self):
+        return "%s .%s()" % ("re" if self.via in ("literal",) else self.via, self.how)
+
+
+def regex_uses(idx, fn, env=None):
+    """Every match/search/fullmatch application in fn, through the re module functions or a compiled pattern."""
+    m = fn.module
+    env = fold_locals(idx, fn) if env is None else env
+    out = []
+    for c in calls_in_func(fn):
+        f = c.func
+        how = re_member(m, f)
+        if how in RE_METHODS:
+            pe, subj = arg(c, 0, "pattern"), arg(c, 1, "string")
+            fexprs = list(c.args[2:]) + [k.value for k in c.keywords if k.arg == "flags"]
+        elif how is None and isinstance(f, ast.Attribute) and f.attr in RE_METHODS:
+            how, pe, subj, fexprs = f.attr, f.value, arg(c, 0, "string"), []
+            if len(c.args) > 1 or any(k.arg in ("pos", "endpos") for k in c.keywords):
+                raise AnalysisError("%s: %s restricts the matched region with pos/endpos" % (fn.qual, ast.unparse(c)))
+        else:
+            continue
+        if pe is None or subj is None:
+            raise AnalysisError("%s: cannot read pattern and subject of %s" % (fn.qual, ast.unparse(c)))
+        pat, fl, names, via = regex_source(idx, fn, pe, env)
+        fl2, names2 = flag_bits(m, fexprs)
+        out.append(RegexUse(fn, c, how, pat, fl | fl2, names + names2, subj, via))
+    return out
+
+
+def the_regex_use(idx, fn, env=None):
+    """The single regex application of a parser function."""
+    us = regex_uses(idx, fn, env)
+    if len(us) != 1:
+        raise AnchorVanished("%s: expected one regex match/search/fullmatch application, found %d" % (fn.qual, len(us)))
+    return us[0]
+
+
+def start_anchored(u):
+    """(pattern anchors x method): .match/.fullmatch start at the first character; .search does only with \\A, or
+    with ^ when MULTILINE is off (under MULTILINE ^ also matches after every newline)."""
+    if u.how in ("match", "fullmatch"):
         return True
-    if how == "re.match":
-        return end
-    return end and regex_starts_anchored(rast)
+    r = u.rast
+    if not r or r[0][0] != "AT":
+        return False
+    return r[0][1] == "AT_BEGINNING_STRING" or (r[0][1] == "AT_BEGINNING" and not u.flags & re.MULTILINE)
+
+
+def end_anchored(u):
+    """.fullmatch ends at the last character; otherwise \\Z, or $ when MULTILINE is off (under MULTILINE $ also
+    matches before every newline)."""
+    if u.how == "fullmatch":
+        return True
+    k = regex_end_anchor(u.rast)
+    return k == "AT_END_STRING" or (k == "AT_END" and not u.flags & re.MULTILINE)
+
+
+def match_succeeded(fnorm, n, lab, call):
+    """The edge (n, lab) is taken only when the regex application `call` produced a match object
+    (`if m:`, `if not m: raise`, `if m is None: raise`, also through a local holding the result)."""
+    f = fnorm.edge_fact(n, lab)
+    if not f or not (f[0] == "truth" or (f[0] == "is not" and "None" in f[1:])):
+        return False
+    return any(c is call for c in ast.walk(fnorm.resolve(n, n.ast)))
+
+
+LEAD_JUNK = ("x", "-", "1.", "1,", "= ", "x\n")
+TRAIL_JUNK = ("x", " x", ".5", "\nx", " 7")
+
+
+def whole_value(r, fn, u, what, samples, reading):
+    """The grammar must cover the value from its first to its last character.  Decided from (anchors x method x
+    MULTILINE); malformed probe strings built from well-formed samples give the concrete misreading."""
+    good = [s for s in samples if u.apply(s)]
+    if not good:
+        raise AnalysisError("%s: none of the well-formed samples %r is accepted by %r" % (fn.qual, samples, u.pattern))
+
+    def probe(junks, lead):
+        for s in good:
+            for j in junks:
+                t = j + s if lead else s + j
+                mm = u.apply(t)
+                if mm:
+                    return t, mm
+        return None
+    for side, ok, junks in (("start", start_anchored(u), LEAD_JUNK), ("end", end_anchored(u), TRAIL_JUNK)):
+        w = probe(junks, side == "start")
+        if ok and w is None:
+            continue
+        if w is None:
+            raise AnalysisError("%s: cannot decide whether %r applied with %s is anchored at the %s" % (
+                fn.qual, u.pattern, u.describe(), side))
+        ml = " under re.MULTILINE" if u.flags & re.MULTILINE else ""
+        why = ("it is applied with %s%s and has no %s anchor" % (u.describe(), ml, side)) if not ok else \
+            "its %s admits other text" % side
+        r.violation(fn, fn.loc(u.call), "%s pattern %r does not cover the whole value: %s, so text %s the value is ignored "
+                    "instead of being rejected: %r is accepted and read as %s" % (
+                        what, u.pattern, why, "before" if side == "start" else "after", w[0], reading(w[1])))
 
 
 def strip_top(rast):
@@ -248,25 +431,20 @@ def run(ctx: Context):
 
     # =================================================================== 1
     dur = {}
-    with ctx.rule("C48.1", "R11", "parse_duration: anchored pattern, digit-class number, unit language within the keys of "
+    with ctx.rule("C48.1", "R11", "parse_duration: pattern covering the whole value, digit-class number, unit language within the keys of "
                   "time_map, lower-cased key under IGNORECASE, multipliers second/day/31-day month/365-day year, "
                   "result int(number) * time_map[unit]", expected=4) as r:
         fn = idx.func(TF + ":parse_duration")
         param = first_positional_params(fn)[0]
         env = fold_locals(idx, fn)
-        mc = the_match_call(fn)
-        try:
-            pattern = evaluate(idx, fn, mc.args[0], env)
-        except NotConstant as e:
-            raise AnalysisError("parse_duration: cannot fold the pattern (%s)" % e)
-        flags, flagnames = re_flags(mc, 2)
-        rast = regex_ast(pattern, flags)
+        use = the_regex_use(idx, fn, env)
+        mc, pattern, flags, flagnames, rast = use.call, use.pattern, use.flags, use.flagnames, use.rast
         r.site(fn, mc, "pattern")
-        r.sample({"pattern": pattern, "flags": flagnames})
-        r.require(anchored(mc, rast), fn, fn.loc(mc), "duration pattern %r is not anchored at the end: trailing junk would be "
-                  "ignored" % pattern)
-        r.require(isinstance(mc.args[1], ast.Name) and mc.args[1].id == param, fn, fn.loc(mc),
-                  "the pattern is matched against %s, not the argument" % src(fn, mc.args[1]))
+        r.sample({"pattern": pattern, "flags": flagnames, "applied": use.describe()})
+        whole_value(r, fn, use, "duration", ("12s", "12 days", "3mo", "2 years"),
+                    lambda mm: "%s x %r" % (mm.group(1), mm.group(2)) if mm.re.groups >= 2 else repr(mm.group(0)))
+        r.require(isinstance(use.subject, ast.Name) and use.subject.id == param, fn, fn.loc(mc),
+                  "the pattern is matched against %s, not the argument" % src(fn, use.subject))
         top = strip_top(rast)
         grp = groups_of(rast)
         r.require(len(grp) == 2, fn, fn.loc(mc), "duration pattern %r does not have exactly a number and a unit group" % pattern)
@@ -334,7 +512,7 @@ def run(ctx: Context):
                 tabs = [o for o in ops if o is sub]
                 ok = len(nums) == 1 and len(tabs) == 1
             r.require(ok, fn, fn.loc(n.ast), "result %s is not int(<number group>) * time_map[<unit>]" % src(fn, n.ast.value))
-        dur = {"pattern": pattern, "flags": flags, "table": tmv, "fn": fn}
+        dur = {"pattern": pattern, "flags": flags, "table": tmv, "fn": fn, "use": use}
 
     # =================================================================== 2
     with ctx.rule("C48.2", "R11", "every duration spelling documented in docs/garbage-collection.rst is accepted by "
@@ -344,13 +522,12 @@ def run(ctx: Context):
         fn = dur["fn"]
         doc = read_repo_text("docs/garbage-collection.rst")
         spellings = literal_block_after(doc, r"one of the following", "duration examples (garbage-collection.rst)")
-        rx = re.compile(dur["pattern"], dur["flags"])
         for sp in spellings:
             m0 = re.match(r"^(\d+)\s*([A-Za-z]+)$", sp)
             if not m0:
                 continue
             r.site("documented duration %r" % sp)
-            m = rx.match(sp)
+            m = dur["use"].apply(sp)
             if not m:
                 r.violation(fn.qual + "[%s]" % sp, fn.loc(), "documented duration %r is rejected by the grammar %r" % (
                     sp, dur["pattern"]))
@@ -364,22 +541,18 @@ def run(ctx: Context):
 
     # =================================================================== 3
     size = {}
-    with ctx.rule("C48.3", "R11", "parse_abbreviated_size: anchored pattern, digit-class number, every suffix of the "
+    with ctx.rule("C48.3", "R11", "parse_abbreviated_size: pattern covering the whole value, digit-class number, every suffix of the "
                   "grammar reaches an existing multiplier key worth 1000**n / 1024**n", expected=3) as r:
         fn = idx.func(AB + ":parse_abbreviated_size")
         param = first_positional_params(fn)[0]
         env = fold_locals(idx, fn)
-        mc = the_match_call(fn)
-        try:
-            pattern = evaluate(idx, fn, mc.args[0], env)
-        except NotConstant as e:
-            raise AnalysisError("parse_abbreviated_size: cannot fold the pattern (%s)" % e)
-        flags, flagnames = re_flags(mc, 2)
-        rast = regex_ast(pattern, flags)
+        use = the_regex_use(idx, fn, env)
+        mc, pattern, flags, flagnames, rast = use.call, use.pattern, use.flags, use.flagnames, use.rast
         r.site(fn, mc, "pattern")
-        r.sample({"pattern": pattern, "flags": flagnames})
-        r.require(anchored(mc, rast), fn, fn.loc(mc), "size pattern %r is not anchored at the end" % pattern)
-        subj = norm_plain(mc.args[1])
+        r.sample({"pattern": pattern, "flags": flagnames, "applied": use.describe()})
+        whole_value(r, fn, use, "size", ("12", "12K", "12KIB", "12 MB", "5G"),
+                    lambda mm: "%s x %r" % (mm.group(1), mm.group(2)) if mm.re.groups >= 2 else repr(mm.group(0)))
+        subj = norm_plain(use.subject)
         if subj == param + ".upper()":
             xform = "upper"
         elif subj == param:
@@ -490,9 +663,9 @@ def run(ctx: Context):
                 ok = len(nums) == 1 and len(tb) == 1
             r.require(ok, fn, fn.loc(n.ast), "result %s is not int(<number group>) * multiplier[<suffix>]" % src(fn, n.ast.value))
         size = {"pattern": pattern, "flags": flags, "xform": xform, "fn": fn, "meaning": meaning, "reached": reached,
-                "table": table}
+                "table": table, "how": use.how}
 
-    size_how = call_name(the_match_call(size["fn"])).split(".")[1] if size else None
+    size_how = size["how"] if size else None
 
     def size_parse(sp, how=size_how):
         """Model of parse_abbreviated_size on one spelling: value or None when the grammar rejects it."""
@@ -552,36 +725,18 @@ def run(ctx: Context):
             r.require(fnorm.norm(n, n.ast.value) == want, fn, fn.loc(n.ast), "parse_date returns %s, not midnight UTC of the "
                       "given day (%s)" % (src(fn, n.ast.value), want))
         iso = idx.func(TF + ":iso_utc_time_to_seconds")
-        # the regex: a default argument or a local/module constant
-        a = iso.node.args
-        defaults = dict(zip([x.arg for x in a.args][len(a.args) - len(a.defaults):], a.defaults))
-        mcalls = [c for c in calls_in_func(iso) if call_tail(c) in ("match", "fullmatch", "search")]
-        if len(mcalls) != 1:
-            raise AnchorVanished("iso_utc_time_to_seconds: expected one regex match call")
-        mc = mcalls[0]
-        recv = mc.func.value if isinstance(mc.func, ast.Attribute) else None
-        rexpr = None
-        if isinstance(recv, ast.Name) and recv.id in defaults:
-            rexpr = defaults[recv.id]
-            pat_from_args = None
-        elif isinstance(recv, ast.Name) and recv.id == "re":
-            rexpr = mc.args[0]
-        else:
-            rexpr = recv
-        try:
-            rv = folder.fold(rexpr, iso.module, None, fold_locals(idx, iso))
-        except NotConstant as e:
-            raise AnalysisError("cannot fold the ISO date regex: %s" % e)
-        pattern = rv[1] if isinstance(rv, tuple) else rv
-        rast = regex_ast(pattern)
+        # the regex: a default argument, a local/module constant or a literal, applied with any of match/search/fullmatch
+        iuse = the_regex_use(idx, iso)
+        mc, pattern, rast, how = iuse.call, iuse.pattern, iuse.rast, iuse.how
         r.site(iso, mc, "regex")
-        r.sample({"pattern": pattern})
-        how = call_tail(mc)
+        r.sample({"pattern": pattern, "applied": iuse.describe()})
+        r.require(norm_plain(iuse.subject) == first_positional_params(iso)[0], iso, iso.loc(mc),
+                  "the date regex is applied to %s, not to the argument" % src(iso, iuse.subject))
         # group shapes
         shape = {}
         for (gid, sub) in groups_of(rast):
             shape[gid] = sub
-        rx = re.compile(pattern)
+        rx = re.compile(pattern, iuse.flags)
         names = {v: k for k, v in rx.groupindex.items()}
         widths = {"year": 4, "month": 2, "day": 2, "hour": 2, "minute": 2, "second": 2}
         for gid, sub in shape.items():
@@ -616,8 +771,7 @@ def run(ctx: Context):
         icfg = iso.cfg()
         mvar_nodes = [n for n in icfg.nodes if n.kind == "test"]
         bad = find_path_avoiding(icfg, lambda n: any(c is tg[0] for c in node_calls(n)),
-                                 gate_edge=lambda n, lab: (inorm.edge_fact(n, lab) or (None,))[0] == "truth"
-                                 and any(c is mc for c in ast.walk(inorm.resolve(n, n.ast))))
+                                 gate_edge=lambda n, lab: match_succeeded(inorm, n, lab, mc))
         for (n, w) in bad:
             r.violation(iso, iso.loc(n.ast), "the time tuple is built on a path that did not check that the regex matched", w)
         # documented dates
@@ -631,33 +785,63 @@ def run(ctx: Context):
             r.require(m is not None and m.group("year") + "-" + m.group("month") + "-" + m.group("day") == d
                       and m.group("hour") + m.group("minute") + m.group("second") == "000000",
                       iso.qual + "[%s]" % d, iso.loc(mc), "documented cutoff date %r is not read as midnight of that day" % d)
-        date = {"pattern": pattern, "rast": rast, "how": how, "iso": iso, "mc": mc, "fn": fn}
+        date = {"pattern": pattern, "rast": rast, "how": how, "iso": iso, "mc": mc, "fn": fn, "use": iuse, "rx": rx, "dates": dates}
 
     # =================================================================== 6
-    with ctx.rule("C48.6", "R11", "the date grammar consumes the whole value: a cutoff date followed by other text is "
-                  "rejected, not read as a different time", expected=1) as r:
+    with ctx.rule("C48.6", "R11", "the date grammar consumes the whole value: a cutoff date preceded or followed by other "
+                  "text is rejected, not read as a different time", expected=1) as r:
         if not date:
             raise AnalysisError("the date grammar could not be extracted (see C48.5)")
-        iso, mc, fn = date["iso"], date["mc"], date["fn"]
+        iso, mc, fn, iuse = date["iso"], date["mc"], date["fn"], date["use"]
         r.site(iso, mc, "end of pattern")
         how = date["how"]
-        if how == "search" and not regex_starts_anchored(date["rast"]):
-            r.violation(iso, iso.loc(mc), "the date regex %r is applied with .search() and has no start anchor: text before the "
-                        "date is ignored instead of being rejected" % date["pattern"])
-        full = how == "fullmatch" or regex_end_anchor(date["rast"]) is not None
-        if not full:
-            # a guard in parse_date itself (fullmatch / anchored match of the bare date) is equally good
-            for c in calls_in_func(fn):
-                if call_name(c) in ("re.fullmatch", "re.match"):
-                    try:
-                        p = folder.fold(c.args[0], fn.module, None, fold_locals(idx, fn))
-                    except NotConstant:
-                        continue
-                    if call_name(c) == "re.fullmatch" or regex_end_anchor(regex_ast(p)) is not None:
-                        full = True
-        r.require(full, fn, iso.loc(mc), "the date regex %r is applied with .%s() and has no end anchor: "
-                  "parse_date('2009-03-18T01:02:03') matches its own prefix, the appended 'T00:00:00' is ignored and the value "
-                  "is read as 01:02:03 instead of being rejected" % (date["pattern"], how))
+        # A guard in parse_date itself pins the whole value when it (a) is applied to the argument, (b) covers it from
+        # the first to the last character (anchors x method), (c) admits only a fixed-width digits-and-punctuation
+        # shape and (d) gates every return; then the appended 'T00:00:00' is all that follows the day.
+        p = first_positional_params(fn)[0]
+        fcfg, fnorm = fn.cfg(), FlowNorm(fn)
+        rets = [n for n in fcfg.find(is_return)]
+
+        def fixed_shape(items):
+            for op, av in items:
+                if op == "AT" or op == "LITERAL":
+                    continue
+                if op == "SUBPATTERN":
+                    if not fixed_shape(av[1]):
+                        return False
+                    continue
+                if op == "MAX_REPEAT" and av[0] == av[1] and is_digits_plus([(op, (1, None, av[2]))]):
+                    continue
+                if op == "IN" and is_digits_plus([("MAX_REPEAT", (1, None, [(op, av)]))]):
+                    continue
+                return False
+            return True
+
+        def gates(u):
+            return not find_path_avoiding(fcfg, lambda n: n in rets, gate_edge=lambda n, lab: match_succeeded(fnorm, n, lab, u.call))
+
+        guard = None
+        for u in regex_uses(idx, fn):
+            if norm_plain(u.subject) == p and start_anchored(u) and end_anchored(u) and fixed_shape(u.rast) and gates(u):
+                guard = u
+        if guard is not None:
+            r.sample({"guard": guard.pattern, "applied": guard.describe()})
+            for d in date["dates"]:
+                r.require(guard.apply(d) is not None, fn.qual + "[%s]" % d, fn.loc(guard.call), "documented cutoff date %r is "
+                          "rejected by the guard %r of parse_date" % (d, guard.pattern))
+                if guard.apply(d):
+                    for t in [d + j for j in TRAIL_JUNK + ("T01:02:03",)] + [j + d for j in LEAD_JUNK]:
+                        r.require(not guard.apply(t), fn, fn.loc(guard.call), "the guard %r of parse_date accepts the malformed "
+                                  "value %r" % (guard.pattern, t))
+        else:
+            if not start_anchored(iuse):
+                r.violation(iso, iso.loc(mc), "the date regex %r is applied with %s and has no start anchor, and parse_date does "
+                            "not check the shape of its argument first: text before the date is ignored instead of being "
+                            "rejected" % (date["pattern"], iuse.describe()))
+            r.require(end_anchored(iuse), fn, iso.loc(mc), "the date regex %r is applied with %s and has no end anchor, and "
+                      "parse_date does not check the shape of its argument first: parse_date('2009-03-18T01:02:03') matches "
+                      "its own prefix, the appended 'T00:00:00' is ignored and the value is read as 01:02:03 instead of "
+                      "being rejected" % (date["pattern"], iuse.describe()))
 
     # =================================================================== 7
     with ctx.rule("C48.7", "R11", "every output template of abbreviate_space lies in the grammar of parse_abbreviated_size",
